@@ -168,8 +168,9 @@ func c07Judge(raw string, u *j.URL) (string, string) {
 		}
 	}
 
-	// sorting rules of collection URLs
-	if isCol {
+	// sorting rules of collection URLs: by the harness's reading of the path, and whenever the
+	// returned URL itself says it is a collection
+	if isCol || u.IsCol {
 		var caller []string
 		for _, v := range q["sort"] {
 			caller = append(caller, splitList(v)...)
